@@ -61,7 +61,7 @@ var c16ValueNames = func() []string {
 }()
 
 func genC16(t *rapid.T) c16Case {
-	kind := rapid.SampledFrom([]string{"boundary", "boundary", "near", "uniform32", "uniformlen", "sparse", "scalar"}).Draw(t, "kind")
+	kind := rapid.SampledFrom([]string{"boundary", "boundary", "near", "uniform32", "uniformlen", "sparse", "scalar", "qlimbs", "qlimbs"}).Draw(t, "kind")
 	var b []byte
 	switch kind {
 	case "boundary", "near":
@@ -90,6 +90,14 @@ func genC16(t *rapid.T) c16Case {
 		}
 		b = raw
 		kind = fmt.Sprintf("%s:%s:le=%v:w=%d", kind, name, le, width)
+	case "qlimbs": // every limb chosen relative to the corresponding limb of the modulus
+		cls := rapid.SliceOfN(rapid.IntRange(0, 5), 4, 4).Draw(t, "limb_classes")
+		v := qLimbValue(cls, rapid.Uint64().Draw(t, "seed"))
+		if rapid.Bool().Draw(t, "little_endian") {
+			b = ref.LE32(v)
+		} else {
+			b = ref.BE32(v)
+		}
 	case "uniform32":
 		b = hx.ExpandBytes(rapid.Uint64().Draw(t, "seed"), "c16", 32)
 	case "uniformlen":
@@ -111,6 +119,33 @@ func genC16(t *rapid.T) c16Case {
 		}
 	}
 	return c16Case{Bytes: hx.HexBytes(b), Class: kind}
+}
+
+// qLimbValue builds a 256-bit integer whose i-th 64-bit limb is {q_i-1, q_i, q_i+1, 0, 2^64-1, random} by class.
+func qLimbValue(cls []int, seed uint64) *big.Int {
+	mask := new(big.Int).SetUint64(^uint64(0))
+	v := new(big.Int)
+	for i := 3; i >= 0; i-- {
+		qi := new(big.Int).And(new(big.Int).Rsh(ref.R, uint(64*i)), mask)
+		var l *big.Int
+		switch cls[i] {
+		case 0:
+			l = new(big.Int).Sub(qi, big.NewInt(1))
+		case 1:
+			l = qi
+		case 2:
+			l = new(big.Int).Add(qi, big.NewInt(1))
+		case 3:
+			l = new(big.Int)
+		case 4:
+			l = new(big.Int).Set(mask)
+		default:
+			l = new(big.Int).And(hx.Expand(seed, "qlimb", i), mask)
+		}
+		v.Lsh(v, 64)
+		v.Or(v, l.And(l, mask))
+	}
+	return v
 }
 
 func evalC16(c c16Case, rec *hx.Rec) error {
@@ -301,6 +336,22 @@ func TestC16(t *testing.T) {
 				}
 				c16Decode.EvalCase(s, c16Case{Bytes: hx.HexBytes(ref.LE32(v)), Class: "sweep-le:" + name})
 				c16Decode.EvalCase(s, c16Case{Bytes: hx.HexBytes(ref.BE32(v)), Class: "sweep-be:" + name})
+			}
+		}
+	}
+	// every combination of limbs relative to the modulus limbs (5^4 deterministic classes), partitioned over shards
+	u := 0
+	for a := 0; a < 5; a++ {
+		for b := 0; b < 5; b++ {
+			for c := 0; c < 5; c++ {
+				for d := 0; d < 5; d++ {
+					u++
+					if hx.Sharded(u) {
+						v := qLimbValue([]int{a, b, c, d}, 0)
+						c16Decode.EvalCase(s, c16Case{Bytes: hx.HexBytes(ref.LE32(v)), Class: fmt.Sprintf("qlimbs-le:%d%d%d%d", a, b, c, d)})
+						c16Decode.EvalCase(s, c16Case{Bytes: hx.HexBytes(ref.BE32(v)), Class: fmt.Sprintf("qlimbs-be:%d%d%d%d", a, b, c, d)})
+					}
+				}
 			}
 		}
 	}
